@@ -76,7 +76,7 @@ fn lnum(s: &str) -> Value {
     }
 }
 
-pub fn parse_dot(dot: &str) -> Value {
+pub fn parse_dot(dot: &str, m: &Model) -> Value {
     let mut nodes = vec![];
     let mut edges = vec![];
     let mut term = vec![];
@@ -168,8 +168,16 @@ pub fn parse_dot(dot: &str) -> Value {
                     fields.insert(k.to_string(), lnum(v));
                 }
             }
-            nodes.push(json!({"id": lnum(head), "shape": get(&a, "shape"), "color": get(&a, "color"), "periph": lnum(get(&a, "peripheries")),
-                              "group": get(&a, "group"), "state": lab[0], "nfields": lab.len() - 1, "fields": fields}));
+            // the harness's state type prints as d{depth}x{bits}: read it back so that TLC can match nodes by state, not by number
+            let st = (|| {
+                let (d, x) = lab[0].strip_prefix('d')?.split_once('x')?;
+                Some(m.sjson(&St { d: d.parse().ok()?, x: x.parse().ok()? }))
+            })();
+            match st {
+                Some(st) => nodes.push(json!({"id": lnum(head), "shape": get(&a, "shape"), "color": get(&a, "color"), "periph": lnum(get(&a, "peripheries")),
+                              "group": get(&a, "group"), "state": lab[0], "st": st, "nfields": lab.len() - 1, "fields": fields})),
+                None => bad.push(l.to_string()),
+            }
         } else {
             bad.push(l.to_string());
         }
@@ -178,14 +186,15 @@ pub fn parse_dot(dot: &str) -> Value {
 }
 
 /// all 64 configurations, each under catch_unwind (a panic is data)
-pub fn draw_all<D: Drawable>(dd: &D, _m: &Model) {
-    for bits in 0..64u32 {
+pub fn draw_all<D: Drawable>(dd: &D, m: &Model) {
+    // the complete drawings (show_deleted) come first: they name the nodes for the others
+    for bits in (16..32u32).chain(48..64).chain(0..16).chain(32..48) {
         let f = |i: u32| bits >> i & 1 == 1;
         let cfg = VizConfig { show_value: f(0), show_locb: f(1), show_rub: f(2), show_threshold: f(3), show_deleted: f(4), group_merged: f(5) };
         let flags = json!([f(0), f(1), f(2), f(3), f(4), f(5)]);
         match std::panic::catch_unwind(std::panic::AssertUnwindSafe(|| dd.draw(&cfg))) {
             Ok(dot) => {
-                let mut v = parse_dot(&dot);
+                let mut v = parse_dot(&dot, m);
                 v["ev"] = json!("viz");
                 v["cfg"] = flags;
                 v["ok"] = json!(true);
